@@ -7,14 +7,17 @@ open Kv
 
 /-- C06.expired_eq_deleted_spec: if key `k` is expired at time `now`, every operation issued at
 `now` — Get, GetMany, CasByVersion, Delete, Create, ListKeys, the WaitForVersionChange probe, Put… —
-answers exactly as if the record had been erased, and so does everything afterwards. -/
-theorem expired_eq_deleted_spec (s : Spec) (now : Nat) (k : String) (r : Rec)
+answers exactly as if the record had been erased, and so does everything afterwards.
+(`hn`: keys are distinct, as in every reachable state — `Kv.runSpec_nodup`.) -/
+theorem expired_eq_deleted_spec (s : Spec) (hn : (s.store.map (·.1)).Nodup) (now : Nat) (k : String) (r : Rec)
     (hk : s.store.get k = some r) (he : expired r now = true) (h : Hist) (hm : Monotone now h) :
-    (runSpec s h).2 = (runSpec { s with store := s.store.erase k } h).2 :=
-  sorry
+    (runSpec s h).2 = (runSpec { s with store := s.store.erase k } h).2 := by
+  have hw : s.store.WF := (Store.WF_iff_nodup _).mpr hn
+  have hsr : SR now s { s with store := s.store.erase k } := ⟨rfl, (Store.Eqv.purge hw hk he).symm⟩
+  exact hsr.run h hm
 
 /-- the listed outcomes on an expired key -/
-theorem expired_outcomes (s : Spec) (now : Nat) (k : String) (r : Rec)
+theorem expired_outcomes (s : Spec) (hn : (s.store.map (·.1)).Nodup) (now : Nat) (k : String) (r : Rec)
     (hk : s.store.get k = some r) (he : expired r now = true) :
     (s.step now (.get k)).2 = .errNotExist ∧
     (s.step now (.getMany [k])).2 = .recs [none] ∧
@@ -22,25 +25,51 @@ theorem expired_outcomes (s : Spec) (now : Nat) (k : String) (r : Rec)
     (s.step now (.delete k)).2 = .errNotExist ∧
     (∀ v exp, (s.step now (.create k v exp)).2 = .okVer s.nextVer) ∧
     (∀ ver, (s.step now (.wait k ver)).2 = .errNotExist) ∧
-    (∀ pat ks, (s.step now (.list pat)).2 = .keys ks → k ∉ ks) :=
-  sorry
+    (∀ pat ks, (s.step now (.list pat)).2 = .keys ks → k ∉ ks) := by
+  have hw : s.store.WF := (Store.WF_iff_nodup _).mpr hn
+  have hl : s.live now k = none := by rw [Spec.live_of_get hk, he]; rfl
+  refine ⟨?_, ?_, ?_, ?_, ?_, ?_, ?_⟩
+  · simp only [Spec.step, hl]
+  · simp only [Spec.step, hl, List.map_cons, List.map_nil, Option.map_none]
+  · intro ver v exp; simp only [Spec.step, hl]
+  · simp only [Spec.step, hl]
+  · intro v exp; simp only [Spec.step, hl, Spec.write]
+  · intro ver; simp only [Spec.step, hl]
+  · intro pat ks hks hmem
+    rw [Spec.list_eq] at hks
+    simp only [Out.keys.injEq] at hks
+    subst hks
+    rw [mem_sortStrings, List.mem_map] at hmem
+    obtain ⟨kr, hkr, hkk⟩ := hmem
+    have hv := Store.mem_vis.mp (List.mem_filter.mp hkr).1
+    have hg := hw.get_of_mem (k := kr.1) (r := kr.2) hv.1
+    rw [hkk, hk] at hg
+    cases hg
+    rw [he] at hv
+    cases hv.2
 
 /-- C06.never_dropped_early: a record whose expiration lies in the future (or is `now` itself), or
 that has none, is returned. -/
 theorem never_dropped_early (s : Spec) (now : Nat) (k : String) (r : Rec)
     (hk : s.store.get k = some r) (hl : ∀ e, r.exp = some e → now ≤ e) :
-    (s.step now (.get k)).2 = .record r.val r.ver r.exp :=
-  sorry
+    (s.step now (.get k)).2 = .record r.val r.ver r.exp := by
+  have he : expired r now = false := by
+    unfold expired
+    cases hr : r.exp with
+    | none => rfl
+    | some e => have := hl e hr; simp only [decide_eq_false_iff_not]; omega
+  have hlive : s.live now k = some r := by rw [Spec.live_of_get hk, he]; rfl
+  simp only [Spec.step, hlive]
 
 /-- both I-models inherit all of the above through C03 (stated for whole histories):
 what they answer is what the Spec answers, and the Spec treats expired as erased. -/
 theorem inmem_expired_eq_deleted (h : Hist) (hm : Monotone 0 h) :
     (runInmem Inmem.new h).2 = (runSpec Spec.new h).2 :=
-  sorry
+  IR.run h IR.new hm
 
 theorem redis_expired_eq_deleted (h : Hist) (hm : Monotone 0 h) (hr : RedisOK h) :
     (runRedis Redis.new h).2 = (runSpec Spec.new h).2 :=
-  sorry
+  RR.run h RR.new hm hr
 
 example : (runSpec Spec.new [(0, .put "a" "x" (some 3)), (4, .create "a" "y" none), (4, .delete "b")]).2 =
     [.okVer 1, .okVer 2, .errNotExist] := by decide
